@@ -23,8 +23,14 @@ list of prefix lengths; `pollAll reader content cuts 0` polls one reader object 
 `exactStages lens decoded cuts 0` is the behaviour the property demands: every poll returns exactly
 the not yet returned frames that are completely inside the visible bytes.
 
-TRR (`get_gromacs_frames`): only the size-guard state machine is modelled (`trrRun`, last section);
-decoding, byte order and precision are checked by the tie.
+TRR (`get_gromacs_frames`): the size-guard state machine `trrRun` and, since the extension pass, the whole generator
+at byte level (`gGen`, Model/ReadersObj.lean); the decoding of the reals is checked by the tie.
+
+Domain (audit pass): `XyzF.WF` / `LmpF.WF` exclude files that contain '\r' (field `nocr`): the code reads in
+universal-newline text mode, which the byte model does not mirror (pending finding C13:text:carriage-return).
+LAMMPS: the whole-schedule theorems without any cut guard are the `*_any_slack` theorems at the end of this file
+(per-frame-slack specification `lmpStagesS`, Model/ReadersSlack.lean); `lmp_exact` (slack = 1) and the
+`*_trailing_partial` theorems (cut guard `tbFree`) are kept as they were.
 -/
 namespace Infretis.C13
 open Infretis.Readers
@@ -1263,5 +1269,59 @@ theorem rp_lmp_safety_complete_any_slack (N : Nat) (hN : 1 ≤ N) (frames : List
 
 example : ([none, some 41, some 84, some 86, some 86].map visBytes) = [0, 41, 84] ++ [86, 86]
     ∧ ([none, some 41, some 84, some 86, some 86].map visBytes).Pairwise (· ≤ ·) := by decide
+
+/-- **NO COMPLETE FRAME IS WITHHELD BEYOND ONE POLL (stage behaviour, any slack)**: in a non-decreasing schedule,
+    every frame that is completely visible at a poll (`a`) has been returned at the latest by the end of the next
+    poll (`b`) — the only poll that returns nothing although complete frames are waiting is the one that skips a
+    late line end, and two of those never follow each other. -/
+theorem lmpStagesS_no_frame_withheld {F : Type} (fr : List (Nat × Nat)) (dec : List F) (hlen : dec.length = fr.length)
+    (pre : List Nat) (a b : Nat) (hs : (pre ++ [a, b]).Pairwise (· ≤ ·)) :
+    completeCount (fr.map Prod.fst) a ≤ ((lmpStagesS fr dec (pre ++ [a, b]) 0 0).flatten).length := by
+  have hsp0 : (0 :: (pre ++ [a, b])).Pairwise (· ≤ ·) := List.pairwise_cons.mpr ⟨fun _ _ => Nat.zero_le _, hs⟩
+  have hv : LInvS fr 0 0 0 := ⟨Nat.zero_le _, by simp [endOf_zero], Or.inl rfl⟩
+  obtain ⟨h1, _⟩ := lmpS_run fr dec (pre ++ [a, b]) 0 0 0 hsp0 hv
+  have hfl : (lmpStagesS fr dec (pre ++ [a, b]) 0 0).flatten = dec.take (lmpFinalS fr (pre ++ [a, b]) 0 0).1 := by
+    simpa using h1
+  have hle := lmpFinalS_le fr (pre ++ [a, b]) 0 0 (Nat.zero_le _)
+  rw [hfl, List.length_take, hlen, Nat.min_eq_left hle, lmpFinalS_append]
+  -- the state after `pre` is valid for the last cut of `pre` (or 0), which is ≤ a
+  obtain ⟨hp1, hp2⟩ := List.pairwise_append.mp hs |>.2
+  have hab : a ≤ b := by
+    have := (List.pairwise_append.mp hs).2.1
+    simp only [List.pairwise_cons, List.mem_singleton, forall_eq, List.not_mem_nil, false_imp_iff, implies_true,
+      List.Pairwise.nil, and_true] at this
+    exact this
+  have hsp : (0 :: pre).Pairwise (· ≤ ·) :=
+    List.pairwise_cons.mpr ⟨fun _ _ => Nat.zero_le _, (List.pairwise_append.mp hs).1⟩
+  obtain ⟨_, g2⟩ := lmpS_run fr dec pre 0 0 0 hsp hv
+  cases hx : (0 :: pre).getLast? with
+  | none => simp at hx
+  | some x =>
+    have hxm : x ∈ 0 :: pre := List.mem_of_getLast? hx
+    have hxa : x ≤ a := by
+      rcases List.mem_cons.mp hxm with rfl | hm
+      · exact Nat.zero_le _
+      · exact hp2 x hm a (by simp)
+    exact lmpS_two_polls fr x a b _ _ hxa hab (g2 x (by rw [hx]; rfl))
+
+example : completeCount ([(43, 2), (43, 2)].map Prod.fst) 86 = 2
+    ∧ (lmpStagesS [(43, 2), (43, 2)] [0, 1] ([41] ++ [86, 86]) 0 0) = [[0], [], [1]] := by decide
+
+/-- **the same about `lammpstrj_reader` itself (code as it is now), every schedule, any white space behind the
+    trailing ids**: after the polls `pre ++ [a, b]` the reader has returned at least every frame that was completely
+    on disk at `a`.  Together with `lmp_safety_complete_any_slack` (nothing but complete-up-to-slack frames, each
+    once, in order): "exactly the frames completely on disk", up to the white space + newline behind a frame's last
+    id and up to the one skip poll. -/
+theorem lmp_no_frame_withheld_any_slack (N : Nat) (hN : 1 ≤ N) (frames : List LmpF) (hwf : ∀ f ∈ frames, f.WF N)
+    (pre : List Nat) (a b : Nat) (hs : (pre ++ [a, b]).Pairwise (· ≤ ·)) :
+    ∃ stages, pollAll (lmpReader .repaired) (lmpContent frames) (pre ++ [a, b]) 0 = .ok stages
+      ∧ completeCount (lmpLens frames) a ≤ stages.flatten.length := by
+  refine ⟨_, lmp_exact_any_slack N hN frames hwf (pre ++ [a, b]), ?_⟩
+  have := lmpStagesS_no_frame_withheld (frOf frames) (lmpDecoded N frames) (by simp [lmpDecoded, frOf]) pre a b hs
+  rw [frOf_fst] at this
+  exact this
+
+example : (∀ f ∈ [wLT, wLT], f.WF 1) ∧ ([41] ++ [86, 86]).Pairwise (· ≤ ·)
+    ∧ completeCount (lmpLens [wLT, wLT]) 86 = 2 := ⟨wLTs_wf, by decide, by decide⟩
 
 end Infretis.C13
